@@ -78,6 +78,14 @@ pub struct WebsocketStream {
     buf: BytesMut,
 }
 
+#[cfg(feature = "verif_hooks")]
+impl WebsocketStream {
+    /// Verification hook: bytes of received binary messages not yet handed to the caller.
+    pub fn verif_buffered(&self) -> &[u8] {
+        &self.buf[..]
+    }
+}
+
 impl AsyncWrite for WebsocketStream {
     fn poll_write(
         mut self: Pin<&mut Self>,
